@@ -31,7 +31,7 @@ PROPS = {
         level_text="Proof (round_trip): whatever WriteMessage(t, data) puts on the wire — any payload below 2^40 bytes, any write buffer size, either role — a connection of the opposite role reads as exactly (t, data) through any bufio size ≥ 125, any transport chunking and reads of any size, with no handler invoked and the following bytes untouched; for ANY NUMBER of messages (round_trip_sequence, by induction over the list): the peer reads exactly the list that was sent, each message once, in send order, and with pings/pongs sent in between (round_trip_sequence_with_controls) its handlers see exactly those control frames in send order; ReadFrom / io.Copy into a message writer (message_roundtrip_readFrom, readFrom_reports_all_data): a source handing out its bytes in reads of any sizes and ending with io.EOF, alone or with its last bytes, contributes exactly its bytes, and the count returned is exact. Proof of the data transformations every message goes through, for all inputs: word-at-a-time masking = RFC byte-wise masking for every alignment/key/offset/length, masking involutive and offset-carrying across splits, truncWriter forwards all but the last 4 bytes for every chunking, strict frame decode inverts the writer's encode for every length < 2^63; the constructor always leaves room for a control frame (F4 repair) so a ping/pong of at most 125 bytes through WriteMessage is accepted and is exactly one control frame; the per-message round trip over the writer model (any buffer size, any split of writes, controls in between) and the reader's decoding of any conformant fragmentation are C02.message_roundtrip / C03.read_message. Tie: random write programs and random conformant streams run on the real package and on the compiled model, wire bytes and delivered bytes compared exactly; an independent RFC decoder/inflater judges sent vs delivered.",
         level_note="compress/flate and encoding/json are parameters; end-to-end composition through a real connected pair is checked by correspondence (stream pair), the theorem composition is per side.",
         lean=["WS.Props.C01"],
-        streams=[("w", 500, 12000), ("rconf", 500, 12000), ("unit", 300, 6000), ("pair", 150, 3000), ("join", 150, 3000)],
+        streams=[("w", 500, 12000), ("rconf", 500, 12000), ("unit", 300, 6000), ("pair", 150, 3000), ("join", 150, 3000), ("glue", 300, 6000)],
         assumptions=[ASSUME_FLATE, ASSUME_BUFIO],
     ),
     "C02": P(
